@@ -6,9 +6,11 @@
    Statements over every reachable state of coq/Mpsc.v, Spsc.v, Mpscr.v
    (one step per shared access): any number of threads, any programs obeying
    the usage discipline [wf] (thread 0 is the only consumer; a node is pushed
-   by at most one push op and is not a stub; Spsc: one producer thread pt;
+   by at most one OPush op and is not a stub; Spsc: one producer thread pt;
    Mpscr: at most one pushing thread per queue, producer numbers < np), any
-   schedule.  The history theorems are about the machine instrumented with
+   schedule.  Nodes returned by trypop may be pushed again (Mpsc: ORepush by
+   the consumer; Spsc/Mpscr: ORecyc by a producer through a free stack): a
+   recycled node carries an arbitrary stale next pointer.  The history theorems are about the machine instrumented with
    ghost logs (lstep in the *Proofs files; erasure: lstep_erase):
      plog = (thread, value) of each push in the order of the tail exchanges /
             tail stores (Mpscr: (thread, queue, value)),
@@ -143,16 +145,19 @@ Theorem spsc_pop_returns_pushed_only : forall pt progs x v,
 Proof. intros pt progs x v W R. exact (pushed_only_of_inv pt x v (ireach_inv pt progs x W R)). Qed.
 Print Assumptions spsc_pop_returns_pushed_only.
 
-(* strict FIFO: the values returned so far are a prefix of the producer's
-   program, in program order *)
+(* strict FIFO: the values stored to tail so far, followed by the values the
+   producer has still to push, and hence the values returned so far, are a
+   subsequence of the values of the producer's program, in program order
+   (subsequence, not equality: a recycled push that finds the free stack empty
+   pushes nothing) *)
 Theorem spsc_program_order : forall pt progs x,
   wf pt progs -> ireach progs x ->
-  map snd (plog x) ++ pendvals (thr (base x) pt) = pushvals (nth pt progs []) /\
-  exists rest, pushvals (nth pt progs []) = qlog x ++ rest.
+  subseq (map snd (plog x) ++ pendvals (thr (base x) pt)) (pushvals (nth pt progs [])) /\
+  subseq (qlog x) (pushvals (nth pt progs [])).
 Proof.
   intros pt progs x W R. split.
   - exact (ireach_pinv pt progs x W R).
-  - exact (program_prefix_of_inv pt progs x (ireach_inv pt progs x W R) (ireach_pinv pt progs x W R)).
+  - exact (program_order_of_inv pt progs x (ireach_inv pt progs x W R) (ireach_pinv pt progs x W R)).
 Qed.
 Print Assumptions spsc_program_order.
 
@@ -176,7 +181,7 @@ Proof. intros pt progs s t n. exact (ownership_reachable pt progs s t n). Qed.
 Print Assumptions spsc_node_ownership.
 
 (* ---- non-vacuity ---- *)
-Definition ex_progs := [[OPop; OPop]; [OPush 2 7; OPush 3 8]].
+Definition ex_progs := [[OPop; OPop; OPop]; [OPush 2 7; OPush 3 8; ORecyc 9]].
 
 Example ex_wf : wf 1 ex_progs.
 Proof.
@@ -186,6 +191,16 @@ Proof.
   - intros [|[|[|t]]]; cbn; repeat constructor; cbn; intuition lia.
   - intros [|[|[|t]]] n; cbn; intros H; try tauto; lia.
 Qed.
+
+(* recycling: the consumer frees the old stub (node 1, whose stale next still
+   points to node 2); the producer takes it from the free stack and pushes it
+   again with value 9; all three values come out in order and node 1 ends up
+   as the stub once more *)
+Example ex_recycled :
+  let x := irun (iinit ex_progs) [1;1;1;1;1; 1;1;1;1;1; 0;0;0;0;0;0; 1;1;1;1;1;1; 0;0;0;0;0;0; 0;0;0;0;0;0] in
+  ireach ex_progs x /\ plog x = [(1, 7); (1, 8); (1, 9)] /\ qlog x = [7; 8; 9] /\
+  freed (base x) = [3; 2] /\ tail (base x) = 1 /\ head (base x) = 1.
+Proof. split; [apply ireach_irun; constructor | vm_compute; auto 10]. Qed.
 
 Example ex_in_flight :
   let x := irun (iinit ex_progs) [1;1;1;1;0] in
@@ -236,10 +251,13 @@ Proof.
 Qed.
 Print Assumptions mpscr_exactly_once.
 
-(* the stores of thread t into queue q happen in t's program order *)
+(* the stores of thread t into queue q happen in t's program order: what t has
+   stored into q so far, followed by what it has still to push to q, is a
+   subsequence of the values t's program pushes to q (a recycled push that
+   finds the free stack empty pushes nothing) *)
 Theorem mpscr_per_producer_order : forall npr progs x t q,
   ireach npr progs x ->
-  tqvals t q (plog x) ++ pendq npr q (thr (base x) t) = pushvalsq npr q (nth t progs []).
+  subseq (tqvals t q (plog x) ++ pendq npr q (thr (base x) t)) (pushvalsq npr q (nth t progs [])).
 Proof. intros npr progs x t q R. exact (ireach_pinv npr progs x R t q). Qed.
 Print Assumptions mpscr_per_producer_order.
 
@@ -282,7 +300,7 @@ Proof. intros npr progs s t n. exact (ownership_reachable npr progs s t n). Qed.
 Print Assumptions mpscr_node_ownership.
 
 (* ---- non-vacuity ---- *)
-Definition ex_progs := [[OPop; OPop]; [OPush 0 20 7]; [OPush 1 21 8]].
+Definition ex_progs := [[OPop; OPop; OPop]; [OPush 0 20 7; ORecyc 0 9]; [OPush 1 21 8]].
 
 Example ex_wf : wf 2 ex_progs.
 Proof.
